@@ -112,7 +112,7 @@ func (x *world) body(t *f1testing.T) {
 	}
 	x.ids = append(x.ids, t.Iteration)
 	switch x.c.gate {
-	case "all":
+	case "all", "all-open-after-ticks":
 		vrt.WaitUntil("gate", func() bool { return x.gateOpen.Peek() })
 	case "barrier":
 		x.entered++
@@ -219,7 +219,7 @@ func (x *world) driveTrigger(ctx vctx.Context, cancel func(), mgr *workers.PoolM
 			if x.started < exp {
 				return false
 			}
-			if c.gate == "all" || c.gate == "barrier" {
+			if c.gate == "all" || c.gate == "barrier" || (c.gate == "all-open-after-ticks" && !x.gateOpen.Peek()) {
 				return true
 			}
 			if pool.VerifStopped() {
@@ -239,7 +239,7 @@ func (x *world) driveTrigger(ctx vctx.Context, cancel func(), mgr *workers.PoolM
 		x.expDrop += left
 		avail := int64(c.workers) - busy
 		st := int64(tk.n)
-		if c.gate == "all" {
+		if c.gate == "all" || c.gate == "all-open-after-ticks" {
 			if st > avail {
 				st = avail
 			}
@@ -260,6 +260,14 @@ func (x *world) driveTrigger(ctx vctx.Context, cancel func(), mgr *workers.PoolM
 			x.definite += int64(tk.n)
 		}
 		pool.Trigger(wctx, tk.n)
+	}
+	if c.gate == "all-open-after-ticks" {
+		// what the last tick left pending is still wanted: once the bodies are released
+		// the workers take it (a tick of 0 before that must have discarded everything)
+		quiesce()
+		x.expStart += left
+		left = 0
+		x.gateOpen.Store(true)
 	}
 	switch c.stop {
 	case "cancel-q":
@@ -445,6 +453,7 @@ func scenariosFor(tier string) []vrt.Scenario {
 			b := bw[wk]
 			add(b, cfg{kind: "trigger", workers: wk, ticks: q(1, 2), gate: "none", stop: "cancel-q"})
 			add(b, cfg{kind: "trigger", workers: wk, ticks: q(3, 1), gate: "all", stop: "cancel-q"})
+			add(b, cfg{kind: "trigger", workers: wk, ticks: q(3, 0), gate: "all-open-after-ticks", stop: "cancel-q"}) // a tick of 0 supersedes what is pending
 			add(b, cfg{kind: "trigger", workers: wk, ticks: im(2, 1), gate: "none", stop: "cancel-now"})
 			add(b, cfg{kind: "trigger", workers: wk, ticks: q(1, 3), gate: "none", stop: "cancel-race"})
 			add(b, cfg{kind: "trigger", workers: wk, ticks: q(2, 2), gate: "none", stop: "limit", limit: 1})
